@@ -13,7 +13,7 @@ class A(Adapter):
     serves = {"C01", "C04", "C05", "C07", "C08", "C09", "C10", "C11", "C12"}
     terminate_on_invalid = True
     max_steps = 60
-    ops = ("state", "step", "judge", "instance", "bounds")
+    ops = ("state", "step", "judge", "instance", "bounds", "spec")
     state_fields = ["grid", "agents_locations", "action_mask", "step_count"]
 
     def configs(self, tier):
@@ -81,6 +81,14 @@ class A(Adapter):
     def reaction_invalid(self, env, s, a, s2, ts):
         """per agent: the environment froze it (a move that is carried out always changes the location)"""
         return [bool(x) for x in (np.asarray(s.agents_locations) == np.asarray(s2.agents_locations)).all(axis=1)]
+
+    # ---- wave 3 (hook of the C09 / C12 sweeps): declared specs vs the model's obsSpec, reset timestep, observation arrays and
+    # membership (harness/wave3_routing.py; theorems cleaner_obsSpec_generated, cleaner_*_obs_valid, cleaner_reset_obs_faithful)
+    def synthetic(self, ctx, cfg, env, runner, rng, drv):
+        import wave3_routing as w3
+
+        w3.check_specs(ctx, self, cfg, env, drv)
+        w3.check_reset_and_obs(ctx, self, cfg, env, runner, rng, drv, 2 if ctx.quick else 6, 12 if ctx.quick else 40)
 
     def horizon(self, env):
         return int(env.time_limit)
